@@ -344,6 +344,24 @@ def traversal_idiom(index, ctx):
     roots_ok = bool(init) and any((isinstance(x, ast.BinOp) and isinstance(x.op, ast.Sub)) or (isinstance(x, ast.Call) and isinstance(x.func, ast.Attribute) and x.func.attr == "difference")
                                   for x in ast.walk(init[0].value))
     how_roots = f"`{norm_text(init[0]) if init else ''}`"
+    if not roots_ok and init and len(fn.args.args) >= 2:
+        # `[r for r in roots if r not in S]` where S is the excluded collection or a local copy of it (set(excluded), excluded.copy(), excluded | ...)
+        p_roots, p_excl = fn.args.args[0].arg, fn.args.args[1].arg
+        holds_excl = {p_excl}
+        for a_ in ast.walk(fn):
+            if isinstance(a_, ast.Assign) and len(a_.targets) == 1 and isinstance(a_.targets[0], ast.Name) and getattr(a_, "lineno", 0) < init[0].lineno:
+                v_ = a_.value
+                if (isinstance(v_, ast.Call) and norm_text(v_.func) in ("set", "frozenset") and len(v_.args) == 1 and norm_text(v_.args[0]) == p_excl) or \
+                        (isinstance(v_, ast.Call) and isinstance(v_.func, ast.Attribute) and v_.func.attr == "copy" and norm_text(v_.func.value) == p_excl and not v_.args) or \
+                        (isinstance(v_, ast.BinOp) and isinstance(v_.op, ast.BitOr) and p_excl in (norm_text(v_.left), norm_text(v_.right))):
+                    holds_excl.add(a_.targets[0].id)
+        for c_ in ast.walk(init[0].value):
+            if isinstance(c_, (ast.ListComp, ast.GeneratorExp, ast.SetComp)) and len(c_.generators) == 1:
+                g_ = c_.generators[0]
+                if isinstance(g_.target, ast.Name) and isinstance(c_.elt, ast.Name) and c_.elt.id == g_.target.id and norm_text(g_.iter) == p_roots and len(g_.ifs) >= 1 \
+                        and any(isinstance(t_, ast.Compare) and len(t_.ops) == 1 and isinstance(t_.ops[0], ast.NotIn) and norm_text(t_.left) == g_.target.id
+                                and norm_text(t_.comparators[0]) in holds_excl for t_ in g_.ifs):
+                    roots_ok, how_roots = True, f"roots filtered one by one: `{norm_text(c_)}`"
     if not roots_ok:
         # the subtraction may be done (1) by the caller before the call, or (2) root by root: `for r in roots: if r not in <closed>: <schedule r>`
         fparams = [a.arg for a in fn.args.args]
